@@ -309,3 +309,32 @@ Proof.
   - unfold gstep, step. destruct (read_map (cs g) i). reflexivity.
   - unfold gstep, step. destruct (read_unmap (cs g) i k). reflexivity.
 Qed.
+
+(* ------------------------------------------------------------------ how far one read reaches (for the drain bound) *)
+Lemma read_existing_lap g i r :
+  Inv g -> nth_error (rds (cs g)) i = Some r -> rmapped r = false ->
+  forall s' rr, read_map (cs g) i = (s', rr) ->
+  idx g r + rlen rr = loglen g \/ (idx g r + rlen rr = loglen g - head (cs g) /\ 0 < rlen rr).
+Proof.
+  intros I Hn Hu s' rr. unfold read_map.
+  assert (Hlt : Nat.eqb i (length (rds (cs g))) = false).
+  { apply Nat.eqb_neq. intros ->. rewrite (proj2 (nth_error_None _ _)) in Hn; [discriminate|lia]. }
+  rewrite Hlt, Hn, Hu.
+  assert (Hin : In r (rds (cs g))) by (eapply nth_error_In; eauto).
+  pose proof (rd_lap g r I Hin) as L. pose proof (i_head g I) as Hh. pose proof (i_high g I) as Hhi.
+  unfold idx.
+  destruct ((hpos r =? head (cs g)) && (hcyc r =? cyc (cs g))) eqn:E1.
+  { intros E; inversion E; subst; clear E. simpl.
+    apply andb_true_iff in E1. destruct E1 as (E1 & E2). apply Z.eqb_eq in E1. rewrite E2. left. lia. }
+  apply andb_false_iff in E1.
+  destruct (Z.ltb_spec (hpos r) (head (cs g))) as [E2|E2].
+  - assert (Hc : hcyc r = cyc (cs g)) by lia.
+    rewrite (proj2 (Z.eqb_eq _ _) Hc). simpl. intros E; inversion E; subst; clear E. simpl. left. lia.
+  - assert (Hc : cyc (cs g) = hcyc r + 1).
+    { destruct E1 as [E1|E1]; apply Z.eqb_neq in E1; lia. }
+    rewrite (proj2 (Z.eqb_eq _ _) Hc).
+    replace (hcyc r =? cyc (cs g)) with false by (symmetry; apply Z.eqb_neq; lia). simpl.
+    destruct (Z.eqb_spec (high (cs g) - hpos r) 0) as [E3|E3].
+    + destruct (Z.ltb_spec 0 (head (cs g))) as [E4|E4]; intros E; inversion E; subst; clear E; simpl; left; lia.
+    + intros E; inversion E; subst; clear E; simpl. right. lia.
+Qed.
